@@ -173,3 +173,70 @@ def check_witnesses(ck, prop):
             ok = got == want
         if not ok:
             ck.fail(sig.split("|"), KNOWN_TEXT.get(sig, sig), {"files": files, "root": "/main.td", "query": q}, json.dumps(got)[:300], json.dumps(want))
+
+
+# ---------------------------------------------------------------------------------------------------
+# scope-leak probes: a construct that opens a scope, with a body the indexer cannot type (valid or faulty), followed in
+# ANOTHER file by declarations and uses whose answers change if the scope survived its construct
+def scope_leak_probes(ck, prop):
+    ops = [("!foreach(s, %(list)s, %(body)s)", "list<%(t)s>"), ("!filter(s, %(list)s, %(body)s)", "list<int>"),
+           ("!foldl(0, %(list)s, acc, s, %(body)s)", "int")]
+    bodies = [("valid-cond", '!cond(!eq(s, 1): 10, true: 20)', "int", False), ("valid-typed", "!add(s, 1)", "int", False),
+              ("fault-undefined", "undefined_probe_id", "int", True), ("fault-bad-field", "s.nofield", "int", True)]
+    hosts = [("class-field", "class Shape<list<int> dims> {\n  %(ft)s labels = %(expr)s;\n}\n", "dims"),
+             ("def-field", "def holder {\n  list<int> xs = [1, 2];\n  %(ft)s ys = %(expr)s;\n}\n", "xs"),
+             ("multiclass-def", "multiclass MH<int v> {\n  def _x {\n    list<int> hl = [1, 2];\n    %(ft)s L = %(expr)s;\n  }\n}\n", "hl"),
+             ("toplevel-defvar", "defvar hlist = [1, 2];\ndefvar words = %(expr)s;\n", "hlist")]
+    tail = ("class Base0;\nmulticlass Pair<int p> {\n  def _a : Base0;\n}\ndefm inst : Pair<1>;\ndef Zero : Base0;\n"
+            "class User {\n  Base0 b = Zero;\n}\n")
+    cases = []
+    for hname, htext, lst in hosts:
+        for op, rty in ops:
+            for bname, body, bty, faulty in bodies:
+                if op.startswith("!filter") and not faulty:
+                    body_v = "!eq(s, 1)" if bname == "valid-typed" else '!cond(!eq(s, 1): true, true: false)'
+                else:
+                    body_v = body
+                expr = op % {"list": lst, "body": body_v, "t": bty}
+                ft = rty % {"t": bty}
+                sub = htext % {"ft": ft, "expr": expr}
+                main = 'include "sub.td"\n' + tail
+                # the seeded site: the undefined identifier, or the name of the missing field
+                mark = "nofield" if bname == "fault-bad-field" else body_v
+                cases.append(("%s/%s/%s" % (hname, op.split("(")[0], bname), {"/main.td": main, "/sub.td": sub}, faulty, sub.find(mark) if faulty else None, len(mark)))
+    qs = []
+    mt = cases[0][1]["/main.td"]
+    pair_use = mt.index("Pair<1>")
+    zero_use = mt.index("= Zero") + 2
+    pair_decl = mt.index("multiclass Pair") + len("multiclass ")
+    zero_decl = mt.index("def Zero") + 4
+    queries = [["diagnostics"], ["goto", "/main.td", pair_use], ["goto", "/main.td", zero_use]]
+    res = core.impl(["ws " + json.dumps({"files": f, "root": "/main.td", "queries": queries}) for _, f, _, _, _ in cases], tag="leak" + prop)
+    for (name, files, faulty, site, slen), r in zip(cases, res):
+        try:
+            ans = json.loads(r)
+        except Exception:
+            ck.fail([prop, "crash", "scope-leak-probe"], "probe aborts: %s" % r[:80], {"files": files, "root": "/main.td"}, r[:200], "answers")
+            continue
+        diags = {f: ds for f, ds in ans[0]}
+        case = {"files": files, "root": "/main.td", "detail": {"probe": name}}
+        if prop == "C13":
+            if diags.get("/main.td"):
+                ck.fail(["C13", "touched-files" if faulty else "false-diagnostic", "after-scoped-operator"],
+                        "diagnostics in a file the %s does not touch: %s" % ("seeded fault" if faulty else "program (which is well-formed)", diags["/main.td"][:2]),
+                        case, json.dumps(diags["/main.td"])[:300], "no diagnostics in /main.td")
+            subd = diags.get("/sub.td") or []
+            if faulty and not any(a <= site and site + slen <= b for _, a, b, _ in subd):
+                ck.fail(["C13", "missed-fault", "in-scoped-operator-body"], "a fault in the body of a scoped operator is not reported at its site", case,
+                        json.dumps(subd)[:300], "a diagnostic covering %d..%d in /sub.td" % (site, site + slen))
+            if not faulty and subd:
+                ck.fail(["C13", "false-diagnostic", "scoped-operator"], "a well-formed use of a scoped operator produces diagnostics: %s" % subd[:2], case,
+                        json.dumps(subd)[:300], "no diagnostics")
+        else:
+            if ans[1] != ["/main.td", pair_decl, pair_decl + 4]:
+                ck.fail(["C05", "goto", "after-scoped-operator:multiclass-ref"], "go-to-definition on a multiclass reference after a scoped operator in an included file answers %s" % ans[1],
+                        case, json.dumps(ans[1]), json.dumps(["/main.td", pair_decl, pair_decl + 4]))
+            if ans[2] != ["/main.td", zero_decl, zero_decl + 4]:
+                ck.fail(["C05", "goto", "after-scoped-operator:def-use"], "go-to-definition on a def use after a scoped operator in an included file answers %s" % ans[2],
+                        case, json.dumps(ans[2]), json.dumps(["/main.td", zero_decl, zero_decl + 4]))
+    ck.count("scope_leak_probes", len(cases), {c[0] for c in cases}, sample={"probe": cases[2][0], "files": cases[2][1]})
